@@ -133,7 +133,23 @@ class World:
         except (wire.Closed, wire.Timeout) as ex:
             raise Inconclusive("monitor client could not register: %r" % (ex,))
         self.model.register(0, MON, "mon", "monitor")
-        self.sync_model()
+        snap = self.snap()
+        if snap is not None:
+            # channels declared in the configuration exist from start-up with their configured attributes
+            want = self.model.canon()["chans"]
+            got = invariants.canon(snap)["chans"]
+            for path, a, b in invariants.diff(want, got)[:6]:
+                self.violate("config-channel", {"C16", "C20"}, "startup",
+                             "predefined channel state at start-up %s: configured %r, server has %r" % (path, a, b))
+            for cn, c in self.model.chans.items():
+                sd = snap["channels"].get(cn, {}).get("default_modes", {})
+                for key, r in (("founders", "q"), ("protecteds", "a"), ("operators", "o"),
+                               ("half_operators", "h"), ("voices", "v")):
+                    if sorted(c.defaults[r]) != sorted(sd.get(key, [])):
+                        self.violate("config-channel-ranks", {"C16", "C20"}, "startup",
+                                     "predefined channel %s: configured %s %s, server has %s"
+                                     % (cn, key, sorted(c.defaults[r]), sd.get(key)))
+            self.model.load_snapshot(snap)
 
     def close(self):
         for c in self.clients.values():
@@ -546,6 +562,13 @@ class World:
 
         # --- state
         snap = self.snap()
+        if snap is not None and snap["conns_count"] != len(self.clients):
+            # the slot is released when the connection task drops its state, a moment after the user is
+            # removed: give it a bounded time before calling it a leak
+            deadline = time.monotonic() + 2.0
+            while snap["conns_count"] != len(self.clients) and time.monotonic() < deadline:
+                time.sleep(0.005)
+                snap = self.snap()
         if snap is not None:
             hw = max(pre.max_users, len(self.model.users))
             for inv_id, detail in invariants.check(snap, open_conns=len(self.clients),
